@@ -1,4 +1,4 @@
-import sys, time, json
+import sys, time, json, os
 sys.path.insert(0, '/verif')
 from pyvc.index import RepoIndex
 from pyvc import contracts as C
@@ -11,7 +11,7 @@ idx = RepoIndex()
 quals = sys.argv[1:] or list(reg)
 for q in quals:
     q = [k for k in reg if k.endswith(q)][0]
-    eng, obs, cx, t = verify_function(idx, reg, q)
+    eng, obs, cx, t = verify_function(idx, reg, q, pid=os.environ.get("PID"))
     print("==", q, "symexec %.2fs" % t, "obligations", len(obs), "facts", len(cx.facts))
     res = discharge(obs, cx.facts, timeout_ms=20000)
     for ob, r in zip(obs, res):
